@@ -55,11 +55,16 @@ class Check:
         if len(r["samples"]) < 4:
             r["samples"].append({"instance": instance, "detail": detail} if detail is not None else {"instance": instance})
 
-    def bad(self, key, detail, loc=None, rid=None, replay=None):
+    def bad(self, key, detail, loc=None, rid=None, replay=None, key_rule=None):
+        """key_rule: rule name used in the violation key when one rule is instantiated per build configuration (the
+        same site in several configurations is one finding)"""
         rid = rid or self.cur
         r = self.rules[rid]
         r["instances"] += 1
-        self.violations.append({"rule": rid, "key": "%s|%s" % (rid, key), "detail": detail, "loc": loc, "replay": replay or {}})
+        k = "%s|%s" % (key_rule or rid, key)
+        if key_rule and any(v["key"] == k for v in self.violations):
+            return
+        self.violations.append({"rule": rid, "key": k, "detail": detail, "loc": loc, "replay": replay or {}})
 
     def expect(self, cond, instance, detail_bad, loc=None, detail_ok=None, rid=None):
         if cond:
